@@ -2,7 +2,7 @@
 From Coq Require Import List NArith ZArith Bool.
 From Coq.Strings Require Import Byte.
 From Model Require Import Bytes Utf8 Frame Parser FrameParser Conn.
-From Proofs Require Import ConnFacts TraceFacts ViolationFacts GenTie DeliveryFacts StreamViolation StreamViolation2.
+From Proofs Require Import ParserTie ConnFacts TraceFacts ViolationFacts GenTie DeliveryFacts StreamViolation StreamViolation2.
 From Gen Require Import GenFrame GenStatus.
 From Props Require C01.
 Import ListNotations.
@@ -179,3 +179,18 @@ Example C04_nonvacuous :
   validate_err true {| h_fin := true; h_r1 := true; h_r2 := false; h_r3 := false; h_op := 1; h_mask := false |} 10 = false /\
   invalid_close_code 1005 = true /\ invalid_close_code 1000 = false.
 Proof. repeat split; try reflexivity. right. right. right. right. right. split; [reflexivity|reflexivity]. Qed.
+
+(* (regenerated, ParserTie.v) the RUNNING ClientFrameParser, executed between two frames on every first header byte
+   (FIN, RSV1-3, opcode) x the 7-, 16- and 64-bit length forms at their boundaries (minimal and not minimal), lengths of
+   2^63-1, 2^63 and 2^64-1, a masked frame -- with compression on and off, with and without an open text message
+   (13 312 rows) -- and on 64 KiB frames of the data opcodes: more bytes needed / the frame yielded (FIN, RSV bits, opcode,
+   payload length) / ProtocolError, exactly as the model's frame parser decides *)
+Theorem C04_running_parser_is_the_model : forallb Proofs.ParserTie.row_ok Gen.GenParser.impl_parser_rows = true.
+Proof. exact Proofs.ParserTie.impl_parser_is_model. Qed.
+Print Assumptions C04_running_parser_is_the_model.
+Theorem C04_parser_table_covers_every_first_byte :
+  forallb (fun st => forallb (fun b0 =>
+     existsb (fun row => let '(comp, is_text, hdr, _, _) := row in
+                         (comp =? fst st) && (is_text =? snd st) && (hd 999 hdr =? b0)) Gen.GenParser.impl_parser_rows)
+     (map N.of_nat (seq 0 256))) [(0, 0); (0, 1); (1, 0); (1, 1)] = true.
+Proof. exact Proofs.ParserTie.impl_parser_covers_all_first_bytes. Qed.
